@@ -507,69 +507,6 @@ def appsTransmit (now : Int) (hp : Bool) : Nat → Ctx → Res × Bool
         if next = first then (.ok c, false) else appsTransmit now hp k c
       | _ => (.panic "get_use_token_data unreachable", false)
 
-/-- The hold-time bookkeeping `do_use_token` performs when it sees a new token receipt:
-`end_token_hold_time = last_token_time + TTR` (minus `Tsl + 100 bit` when a GAP poll is pending). -/
-def holdUpdate (s : Station) (d : UseData) : Station :=
-  if s.lastTokenTime ≠ d.tokenTime then
-    let e : Int := s.lastTokenTime + (s.p.ttrTime : Nat)
-    let e := match s.gap with
-      | .doPoll _ => e - (s.p.bits (s.p.slotBits + 100) : Nat)
-      | .waiting _ => e
-    { s with endTokenHoldTime := e, lastTokenTime := d.tokenTime }
-  else s
-
-/-- One message cycle attempt of `do_use_token` (`first_cycle_done = true`, then ask the applications;
-pass the token if nobody transmits). -/
-def useTokenGo (c : Ctx) (now : Int) (d : UseData) (hp : Bool) : Res :=
-  let c := upd c fun s => { s with st := .useToken d true }
-  match appsTransmit now hp c.apps.length c with
-  | (.panic s, _) => .panic s
-  | (.ok c, true) => .ok c
-  | (.ok c, false) => tr c (fun s => toPassToken s true .first) "transition_pass_token"
-
-/-- `do_use_token`. -/
-def doUseToken (c : Ctx) (now : Int) : Res :=
-  match c.s.st with
-  | .useToken d fcd =>
-    let s1 := holdUpdate c.s d
-    let sw := waitSyncPause s1 now
-    let c := { c with s := sw.1 }
-    if sw.2 then .ok c else
-    if now < c.s.endTokenHoldTime then useTokenGo c now d false
-    else if !fcd then useTokenGo c now d true
-    else tr c (fun s => toPassToken s true .first) "transition_pass_token"
-  | _ => .panic "debug_assert_state!(UseToken)"
-
-/-- `do_await_data_response`. -/
-def doAwaitDataResponse (c : Ctx) (now : Int) : Res :=
-  match c.s.st with
-  | .awaitData address d =>
-    let i := c.s.nextApp
-    if c.apps.length ≤ i then .panic "apps[self.next_application] out of bounds" else
-    let backToUse (c : Ctx) : Res :=
-      (tr c (fun s => toUseToken s d) "transition_use_token").bind fun c =>
-        .ok (upd c fun s => { s with st := .useToken d true })
-    match receiveTelegram c.rx with
-    | .panic => .panic "receive_telegram"
-    | .hang => .panic "receive_telegram hang"
-    | .done rx' ((t, _) :: _) _ =>
-      let c := { c with rx := rx', s := markRx c.s now }
-      let valid : Bool := match t with
-        | .token .. => false
-        | .sc => true
-        | .data h _ => decide (h.sa.toNat = address) && decide (h.da.toNat = c.s.p.address) &&
-            (match h.fc with | .response .. => true | _ => false)
-      if valid then backToUse { c with calls := c.calls ++ [.reply i address t] }
-      else tr c toActiveIdle "transition_active_idle"
-    | .done rx' [] _ =>
-      let c := { c with rx := rx' }
-      let (s', expired) := checkSlotExpired c.s now
-      let c := { c with s := s' }
-      if expired then
-        (backToUse { c with calls := c.calls ++ [.timeout i address] }).bind fun c => doUseToken c now
-      else .ok c
-  | _ => .panic "debug_assert_state!(AwaitDataResponse)"
-
 /-- Tail of `do_pass_token`: transmit the token to NS, record the own pass in the LAS, then supervise
 the pass (or keep the token when alone). -/
 def passTokenOn (c : Ctx) (now : Int) (att : Attempt) : Res :=
@@ -606,6 +543,74 @@ def doPassToken (c : Ctx) (now : Int) : Res :=
         | (.ok c, none) => passTokenOn c now att
     else passTokenOn c now att
   | _ => .panic "debug_assert_state!(PassToken)"
+
+/-- The hold-time bookkeeping `do_use_token` performs when it sees a new token receipt:
+`end_token_hold_time = last_token_time + TTR` (minus `Tsl + 100 bit` when a GAP poll is pending). -/
+def holdUpdate (s : Station) (d : UseData) : Station :=
+  if s.lastTokenTime ≠ d.tokenTime then
+    let e : Int := s.lastTokenTime + (s.p.ttrTime : Nat)
+    let e := match s.gap with
+      | .doPoll _ => e - (s.p.bits (s.p.slotBits + 100) : Nat)
+      | .waiting _ => e
+    { s with endTokenHoldTime := e, lastTokenTime := d.tokenTime }
+  else s
+
+/-- End of a token hold in `do_use_token`: `transition_pass_token(DoGap::Yes, First)` and, in the same
+poll, `do_pass_token` (repair of finding K3: the token is passed on right away). -/
+def passNow (c : Ctx) (now : Int) : Res :=
+  (tr c (fun s => toPassToken s true .first) "transition_pass_token").bind fun c => doPassToken c now
+
+/-- One message cycle attempt of `do_use_token` (`first_cycle_done = true`, then ask the applications;
+pass the token if nobody transmits). -/
+def useTokenGo (c : Ctx) (now : Int) (d : UseData) (hp : Bool) : Res :=
+  let c := upd c fun s => { s with st := .useToken d true }
+  match appsTransmit now hp c.apps.length c with
+  | (.panic s, _) => .panic s
+  | (.ok c, true) => .ok c
+  | (.ok c, false) => passNow c now
+
+/-- `do_use_token`. -/
+def doUseToken (c : Ctx) (now : Int) : Res :=
+  match c.s.st with
+  | .useToken d fcd =>
+    let s1 := holdUpdate c.s d
+    let sw := waitSyncPause s1 now
+    let c := { c with s := sw.1 }
+    if sw.2 then .ok c else
+    if now < c.s.endTokenHoldTime then useTokenGo c now d false
+    else if !fcd then useTokenGo c now d true
+    else passNow c now
+  | _ => .panic "debug_assert_state!(UseToken)"
+
+/-- `do_await_data_response`. -/
+def doAwaitDataResponse (c : Ctx) (now : Int) : Res :=
+  match c.s.st with
+  | .awaitData address d =>
+    let i := c.s.nextApp
+    if c.apps.length ≤ i then .panic "apps[self.next_application] out of bounds" else
+    let backToUse (c : Ctx) : Res :=
+      (tr c (fun s => toUseToken s d) "transition_use_token").bind fun c =>
+        .ok (upd c fun s => { s with st := .useToken d true })
+    match receiveTelegram c.rx with
+    | .panic => .panic "receive_telegram"
+    | .hang => .panic "receive_telegram hang"
+    | .done rx' ((t, _) :: _) _ =>
+      let c := { c with rx := rx', s := markRx c.s now }
+      let valid : Bool := match t with
+        | .token .. => false
+        | .sc => true
+        | .data h _ => decide (h.sa.toNat = address) && decide (h.da.toNat = c.s.p.address) &&
+            (match h.fc with | .response .. => true | _ => false)
+      if valid then backToUse { c with calls := c.calls ++ [.reply i address t] }
+      else tr c toActiveIdle "transition_active_idle"
+    | .done rx' [] _ =>
+      let c := { c with rx := rx' }
+      let (s', expired) := checkSlotExpired c.s now
+      let c := { c with s := s' }
+      if expired then
+        (backToUse { c with calls := c.calls ++ [.timeout i address] }).bind fun c => doUseToken c now
+      else .ok c
+  | _ => .panic "debug_assert_state!(AwaitDataResponse)"
 
 /-- `do_await_status_response`. -/
 def doAwaitStatusResponse (c : Ctx) (now : Int) : Res :=
